@@ -94,6 +94,9 @@ def random_model(rnd, dim, noise_type, n_eff):
     return NoiseModel(**kw)
 
 
+KNOWN = {}
+
+
 def check_get_lindblad_operators(rnd, trials, only=None):
     from emu_base.jump_lindblad_operators import get_lindblad_operators
     for t in range(trials):
@@ -129,6 +132,13 @@ def check_get_lindblad_operators(rnd, trials, only=None):
                 return 1
             for k, (g, w) in enumerate(zip(got, want)):
                 if not torch.allclose(g, w, atol=1e-12):
+                    op = torch.as_tensor(nm.eff_noise_opers[k], dtype=dt)
+                    if it == "ising" and dim == 3 and (op[2, :2].abs().sum() + op[:2, 2].abs().sum()) > 0 \
+                            and torch.allclose(g[:2, :2], w[:2, :2], atol=1e-12) and torch.allclose(g[2, 2], w[2, 2], atol=1e-12):
+                        # open known finding F12 (entries coupling g/r to the leakage level keep pulser's order):
+                        # listed in known_findings.json, not a new violation
+                        KNOWN["F12"] = KNOWN.get("F12", 0) + 1
+                        continue
                     print(f"REPRODUCED: get_lindblad_operators(eff_noise, {it}, dim={dim}) operator {k}:\n"
                           f"pulser operator (pulser basis {'r,g,x' if it == 'ising' else 'u,d,x'}) * sqrt(rate) =\n"
                           f"{(math.sqrt(nm.eff_noise_rates[k]) * torch.as_tensor(nm.eff_noise_opers[k], dtype=dt))}\n"
@@ -229,6 +239,9 @@ def main():
         traceback.print_exc()
         print(f"REPRODUCED: unexpected {type(e).__name__}: {e}")
         return 1
+    if KNOWN:
+        print(f"  KNOWN-FINDING-F12-INPUT-FAILS: {KNOWN['F12']} sampled 3-level effective-noise operators with g/r <-> x "
+              "entries (open known finding, not counted)")
     if rc == 0:
         print("NOT-REPRODUCED: random noise models agree with pulser's collapse operators (emulator basis), "
               "-i/2 sum L^+L, and the adapter's concatenation")
